@@ -56,9 +56,14 @@ class Repartition(Expr):
             "new_partitions" in self._parameters
             and self.operand("new_partitions") is not None
         ):
-            new_partitions = self.operand("new_partitions")
-            if isinstance(new_partitions, Callable):
-                return new_partitions(self.frame.npartitions)
+            new_partitions = self.new_partitions
+            if (
+                new_partitions > self.frame.npartitions
+                and self.frame.known_divisions
+            ):
+                # Splitting known divisions interpolates them and drops the
+                # duplicates, which can leave fewer partitions than requested
+                return super().npartitions
             return new_partitions
         return super().npartitions
 
